@@ -194,7 +194,7 @@ func GenSelector(t *rapid.T, pool []TripDesc, zone string, noPartial bool) Selec
 	}
 	s.Agency = opt(t, "agency", gAgencyID)
 	if rapid.IntRange(0, 2).Draw(t, "selRoute?") == 0 {
-		s.Route = P(rapid.SampledFrom([]string{"R1", "R2", "R3", "M"}).Draw(t, "selRoute"))
+		s.Route = P(rapid.SampledFrom([]string{"R1", "R2", "R3", "M", "r1", "m", "R1 "}).Draw(t, "selRoute"))
 	}
 	if rapid.IntRange(0, 3).Draw(t, "routeType?") == 0 {
 		s.RouteType = P(rapid.SampledFrom([]int32{0, 1, 2, 3, 4, 5, 6, 7, 11, 12, 8, 9, 10, 13, 100, -1, 10000}).Draw(t, "routeType"))
@@ -210,7 +210,7 @@ func GenSelector(t *rapid.T, pool []TripDesc, zone string, noPartial bool) Selec
 		d := pool[rapid.IntRange(0, len(pool)-1).Draw(t, "poolTrip")]
 		s.Trip = &d
 	case tripMode <= 7: // route (+direction) only: the fallback class
-		d := TripDesc{RouteID: P(rapid.SampledFrom([]string{"R1", "R2", "R3", "R4"}).Draw(t, "fbRoute"))}
+		d := TripDesc{RouteID: P(rapid.SampledFrom([]string{"R1", "R2", "R3", "R4", "r1", "r2", " R1"}).Draw(t, "fbRoute"))}
 		d.Direction = opt(t, "fbDir", rapid.Uint32Range(0, 1))
 		s.Trip = &d
 	case tripMode == 8: // identifying without a trip id
